@@ -16,7 +16,10 @@ R(v, len) == [k |-> "root", v |-> v, exp |-> 9, len |-> len, b |-> 1, signers |-
 MC_Shipped == {R(1, 1)}
 MC_ShipRule(sh, mx) == TRUE
 \* the chain of valid newer roots never ends
+\* ... or the server answers the request for version n with the root of version n - 1 again (a mirror
+\* that serves its latest root for versions it does not have): the walk ends there
 MC_CandRoot(n, tr) == {R(n, len) : len \in Lens} \cup {[k |-> "absent"], [k |-> "endless"]}
+                      \cup (IF n >= 2 THEN {R(n - 1, 1)} ELSE {})
 Pins(v) == {[v |-> v, h |-> NoDoc, len |-> ll] : ll \in {0} \cup Lens}
 MC_CandTs(r) == {[k |-> "ts", v |-> 1, exp |-> 9, len |-> len, b |-> 1, signers |-> {1}, pin |-> p] :
                    len \in Lens, p \in Pins(1)} \cup {[k |-> "endless"]}
